@@ -76,14 +76,34 @@ pub fn walk(seed: u64) -> (WalkStats, Option<Viol>) {
 /// thread inserts and removes cache entries (the worker merely moves the boundary), so the two reads are
 /// consistent without stopping the worker. Third result: the first accounting disagreement.
 pub fn walk2(seed: u64) -> (WalkStats, Option<Viol>, Option<Viol>) {
+    let (s, p, a, _) = walk3(seed);
+    (s, p, a)
+}
+
+/// Fourth result (C02): at every restart inside the walk - flush, acknowledgement, worker idle, drop, open - the
+/// store must show the same state and the same entries as before it, whatever `update_state` calls preceded it.
+pub fn walk3(seed: u64) -> (WalkStats, Option<Viol>, Option<Viol>, Option<Viol>) {
+    walk_x(seed, false)
+}
+
+/// `legal`: apart from `update_state` (which only moves `last` / `committed` to ids of live entries, or changes the
+/// vote) every call is one a Raft node could make: purge, commit and truncate name live entries, appended terms lie
+/// above every term used before, cache limits are the defaults. Restart equivalence (C02) is judged on these walks only:
+/// with arbitrary ids a purge can name a log id with a higher term and a lower index than live entries, after which
+/// what is readable in-process and what a replay of the journal yields legitimately differ.
+pub fn walk_legal(seed: u64) -> (WalkStats, Option<Viol>, Option<Viol>, Option<Viol>) {
+    walk_x(seed, true)
+}
+
+fn walk_x(seed: u64, legal: bool) -> (WalkStats, Option<Viol>, Option<Viol>, Option<Viol>) {
     let mut r = Rng::new(seed);
     let mut stats = WalkStats { calls: 0, update_states: 0, reappended_resident_ids: 0, restarts: 0, restarts_refused: 0, accounting_observations: 0, kinds: Default::default() };
     let dir = util::fresh_dir("c16w");
     let cfg = CfgSpec {
         max_records: Some(*r.pick(&[2usize, 3, 5, 8, 1000])),
         read_buf: Some(*r.pick(&[1usize, 64, 4096])),
-        max_items: *r.pick(&[None, Some(0usize), Some(1), Some(3)]),
-        capacity: *r.pick(&[None, Some(0usize), Some(16), Some(200)]),
+        max_items: if legal { None } else { *r.pick(&[None, Some(0usize), Some(1), Some(3)]) },
+        capacity: if legal { None } else { *r.pick(&[None, Some(0usize), Some(16), Some(200)]) },
         ..Default::default()
     };
     let mut inst = 1;
@@ -91,7 +111,7 @@ pub fn walk2(seed: u64) -> (WalkStats, Option<Viol>, Option<Viol>) {
         Ok(s) => s,
         Err(_) => {
             util::remove_dir(&dir);
-            return (stats, None, None);
+            return (stats, None, None, None);
         }
     };
     let mut log: Vec<String> = vec![];
@@ -100,10 +120,46 @@ pub fn walk2(seed: u64) -> (WalkStats, Option<Viol>, Option<Viol>) {
     let n_steps = r.range(20, 60);
     let mut viol: Option<(String, String)> = None;
     let mut acct: Option<(String, String, usize)> = None;
+    let mut restart_diff: Option<(String, usize)> = None;
     let first = r.below(3) * r.below(5);
+    let mut top_term = 1u64;
+    // `update_state` moved `last` below indexed entries / a purge happened after that: from then on the chunk bookkeeping
+    // (a chunk is obsolete when the last log id recorded at its close is purged) no longer covers those entries, and a
+    // restart may legitimately show fewer of them than the cache did; no comparison after that point
+    let mut last_moved_back = false;
+    let mut no_restart_claim = false;
     for step in 0..n_steps {
         let s = st.state();
         let k = r.below(100);
+        // ids of the entries that are live right now (legal mode names only these)
+        let live: Vec<(u64, u64)> = if legal {
+            match st.read_all() {
+                Outcome2::Ok(v) => v.into_iter().map(|e| e.0).collect(),
+                _ => vec![],
+            }
+        } else {
+            vec![]
+        };
+        if legal && k >= 30 && k < 70 && live.is_empty() && !(k < 42) {
+            // nothing to name: make it an append instead
+            let next_ix = match (s.last, s.purged) {
+                (Some(l), _) => l.1.wrapping_add(1),
+                (None, Some(p)) => p.1.wrapping_add(1),
+                (None, None) => first,
+            };
+            let id = (top_term.max(s.last.map(|l| l.0).unwrap_or(1)), next_ix);
+            let o = st.write(&Op::Append(vec![(id, payload(&mut r, step))]));
+            if o.is_ok() {
+                known.push(id);
+            }
+            log.push(format!("append[{:?}]", id));
+            stats.calls += 1;
+            if let Outcome::Panic(p) = o {
+                viol = Some(("append".into(), p));
+                break;
+            }
+            continue;
+        }
         let (name, out): (&str, Outcome) = if k < 30 {
             // append: mostly the id right after the reported last (so that it is accepted), sometimes elsewhere
             let next_ix = match (s.last, s.purged) {
@@ -111,8 +167,8 @@ pub fn walk2(seed: u64) -> (WalkStats, Option<Viol>, Option<Viol>) {
                 (None, Some(p)) => p.1.wrapping_add(1),
                 (None, None) => first,
             };
-            let t = if r.chance(4, 5) { s.last.map(|l| l.0).unwrap_or(1).max(1) } else { term_near(&mut r, &s) };
-            let ix = if r.chance(9, 10) { next_ix } else { around(&mut r, &s, &known) };
+            let t = if legal { top_term.max(s.last.map(|l| l.0).unwrap_or(1)) } else if r.chance(4, 5) { s.last.map(|l| l.0).unwrap_or(1).max(1) } else { term_near(&mut r, &s) };
+            let ix = if legal || r.chance(9, 10) { next_ix } else { around(&mut r, &s, &known) };
             let n = if r.chance(1, 4) { r.range(2, 3) } else { 1 };
             let es: Vec<((u64, u64), String)> = (0..n).map(|j| ((t, ix.wrapping_add(j)), payload(&mut r, step * 10 + j))).collect();
             for (id, _) in &es {
@@ -141,7 +197,19 @@ pub fn walk2(seed: u64) -> (WalkStats, Option<Viol>, Option<Viol>) {
                     _ => s.last,
                 }
             };
-            for _ in 0..r.range(1, 3) {
+            if legal {
+                match r.below(3) {
+                    0 if !live.is_empty() => {
+                        ns.last = Some(*r.pick(&live));
+                        last_moved_back = true;
+                        // whatever is appended next must lie above every id used so far
+                        top_term = known.iter().map(|k| k.0).max().unwrap_or(1).max(top_term).saturating_add(1);
+                    }
+                    1 if !live.is_empty() => ns.committed = Some(*r.pick(&live)),
+                    _ => ns.vote = Some((s.vote.map(|v| v.0).unwrap_or(0).saturating_add(r.below(2)), r.below(4))),
+                }
+            }
+            for _ in 0..(if legal { 0 } else { r.range(1, 3) }) {
                 match r.below(5) {
                     0 | 1 => ns.last = pick_id(&mut r, &known, &s),
                     2 => ns.purged = pick_id(&mut r, &known, &s),
@@ -153,19 +221,37 @@ pub fn walk2(seed: u64) -> (WalkStats, Option<Viol>, Option<Viol>) {
             log.push(format!("update_state(last={:?},purged={:?},committed={:?},vote={:?})", ns.last, ns.purged, ns.committed, ns.vote));
             ("update_state", st.write(&Op::UpdateState(ns)))
         } else if k < 52 {
-            let ix = if r.chance(2, 3) { s.last.map(|l| l.1.saturating_sub(r.below(3))).unwrap_or(0) } else { around(&mut r, &s, &known) };
+            let ix = if legal {
+                top_term = known.iter().map(|k| k.0).max().unwrap_or(1).max(top_term).saturating_add(1);
+                r.pick(&live).1
+            } else if r.chance(2, 3) {
+                s.last.map(|l| l.1.saturating_sub(r.below(3))).unwrap_or(0)
+            } else {
+                around(&mut r, &s, &known)
+            };
             log.push(format!("truncate({})", ix));
             ("truncate", st.write(&Op::Truncate(ix)))
         } else if k < 62 {
-            let id = if r.chance(2, 3) && !known.is_empty() { *r.pick(&known) } else { (term_near(&mut r, &s), around(&mut r, &s, &known)) };
+            let id = if legal {
+                // an entry at or below last (after update_state moved last back, entries above it may still be indexed)
+                let c: Vec<(u64, u64)> = live.iter().copied().filter(|i| Some(*i) <= s.last).collect();
+                if c.is_empty() { live[0] } else { *r.pick(&c) }
+            } else if r.chance(2, 3) && !known.is_empty() {
+                *r.pick(&known)
+            } else {
+                (term_near(&mut r, &s), around(&mut r, &s, &known))
+            };
+            if last_moved_back {
+                no_restart_claim = true;
+            }
             log.push(format!("purge{:?}", id));
             ("purge", st.write(&Op::Purge(id)))
         } else if k < 67 {
-            let id = if r.chance(2, 3) && !known.is_empty() { *r.pick(&known) } else { (term_near(&mut r, &s), around(&mut r, &s, &known)) };
+            let id = if legal { *r.pick(&live) } else if r.chance(2, 3) && !known.is_empty() { *r.pick(&known) } else { (term_near(&mut r, &s), around(&mut r, &s, &known)) };
             log.push(format!("commit{:?}", id));
             ("commit", st.write(&Op::Commit(id)))
         } else if k < 70 {
-            let v = (term_near(&mut r, &s), r.below(4));
+            let v = if legal { (s.vote.map(|v| v.0).unwrap_or(0).saturating_add(r.below(2)), r.below(4)) } else { (term_near(&mut r, &s), r.below(4)) };
             log.push(format!("vote{:?}", v));
             ("vote", st.write(&Op::Vote(v)))
         } else if k < 78 {
@@ -196,13 +282,26 @@ pub fn walk2(seed: u64) -> (WalkStats, Option<Viol>, Option<Viol>) {
         } else {
             // restart: replaying the journal written so far must not panic either (it may be refused)
             log.push("restart".into());
-            let _ = st.sync();
+            let synced = st.sync().is_ok();
+            let before = if synced { Some((st.state(), st.read_all())) } else { None };
             st.close();
             inst += 1;
             stats.restarts += 1;
             match Store::open(&dir, &cfg, inst) {
                 Ok(s2) => {
                     st = s2;
+                    if let (Some((bs, Outcome2::Ok(be))), None, false) = (&before, &restart_diff, no_restart_claim) {
+                        let after = (st.state(), st.read_all());
+                        if &after.0 != bs {
+                            restart_diff = Some((format!("state before the restart {:?}, after it {:?}", bs, after.0), log.len()));
+                        } else if let Outcome2::Ok(ae) = &after.1 {
+                            if ae != be {
+                                restart_diff = Some((format!("same state, but read(0,MAX) returned {} entries before the restart and {} after it: {}", be.len(), ae.len(), crate::props::seq::diff_entries(ae, be)), log.len()));
+                            }
+                        } else {
+                            restart_diff = Some((format!("read(0,MAX) worked before the restart ({} entries) and fails after it", be.len()), log.len()));
+                        }
+                    }
                     ("restart", Outcome::Ok(None))
                 }
                 Err(Outcome::Panic(p)) => {
@@ -265,7 +364,18 @@ pub fn walk2(seed: u64) -> (WalkStats, Option<Viol>, Option<Viol>) {
         text: format!("{} ; calls so far: {}", text, log[..at].iter().rev().take(14).rev().cloned().collect::<Vec<_>>().join(" ; ")),
         replay: json!({"kind": "c15w", "seed": seed.to_string(), "cfg": cfg.to_json(), "calls": log}),
     });
-    (stats, v, a)
+    let c2 = restart_diff.map(|(text, at)| Viol {
+        prop: "C02".into(),
+        sig: "C02:walk:changed_by_restart".into(),
+        text: format!("{} ; calls so far: {}", text, log[..at].iter().rev().take(14).rev().cloned().collect::<Vec<_>>().join(" ; ")),
+        replay: json!({"kind": "c02w", "seed": seed.to_string(), "cfg": cfg.to_json(), "calls": log}),
+    });
+    (stats, v, a, c2)
+}
+
+pub fn replay02(v: &serde_json::Value) -> Option<Viol> {
+    let seed: u64 = v["seed"].as_str()?.parse().ok()?;
+    walk_legal(seed).3
 }
 
 pub fn replay15(v: &serde_json::Value) -> Option<Viol> {
